@@ -26,6 +26,8 @@ def shapes(level):
     for dims in ((2, 2), (2, 3)):
         for contents in ("const", "secret"):
             out.append(("2d", dims, contents))
+    out.append(("2d", (33, 2), "secret"))
+    out.append(("2d", (2, 33), "const"))
     for contents in ("const", "secret"):
         out.append(("3d", (2, 2, 2), contents))
     # lengths beyond every small block / table size (32, 33, 40; thorough also 64, 65, 130)
@@ -85,17 +87,19 @@ def events(shape, level):
                 ev.append(("write", iks, idx, "S"))
     else:
         R, C = dims
-        for i in range(-1, R + 1):
-            for j in range(-1, C + 1):
+        ri = range(-1, R + 1) if R <= 4 else [-1, 0, 1, 31, 32, R]
+        ci = range(-1, C + 1) if C <= 4 else [-1, 0, 1, 31, 32, C]
+        for i in ri:
+            for j in ci:
                 for iks in (("S", "S"), ("S", "K"), ("K", "S"), ("K", "K")):
                     ev.append(("read", iks, (i, j)))
                     ev.append(("write", iks, (i, j), "S"))
                     if level >= 1 or iks == ("S", "S"):
                         ev.append(("write", iks, (i, j), "K"))
         # a row read at a secret index is stored into two rows (the same row object held in two places)
-        for i in range(R):
-            for j in range(R):
-                for k in range(R):
+        for i in range(min(R, 3)):
+            for j in range(min(R, 3)):
+                for k in range(min(R, 3)):
                     if j != k:
                         ev.append(("rowdup", ("S",), (i,), (j, k)))
     return ev
@@ -404,6 +408,8 @@ def run(ctx):
             depth = 4 if ctx.thorough else 3
         elif shape[0] == "3d":
             depth = 2
+        elif max(shape[1]) > 4:
+            depth = 1
         else:
             depth = 3 if ctx.thorough else 2
         tasks.append((shape, depth, level, p))
